@@ -1,9 +1,13 @@
 /-
 C06 — a signature is accepted only for the exact RRset, key and time window.
-Property theorems about `Model/SigCheck.lean`.
+Property theorems about `Model/SigCheck.lean` (the validator as it is since the repairs /repo
+628570a, 411522f, a831deb).  The regression theorems about the pre-repair cache are in
+`Proofs/C06PreFix.lean`; the injectivity of the signed data (`mutation_rejects`) builds on
+`Proofs/C05Inj.lean`.
 -/
 import HickoryVerif.Model.SigCheck
 import HickoryVerif.Proofs.C05
+import HickoryVerif.Proofs.C05Inj
 
 namespace HickoryVerif.C06
 open HickoryVerif HickoryVerif.Tbs HickoryVerif.SigCheck
@@ -160,24 +164,21 @@ theorem ttl_le_remaining (sigValid : SigOracle) (k : Dnskey) (kp : Proof) (sig :
         · cases h
       · cases h
 
-/-- **Exactly that RRset.**  Combined with C05: when the RRset satisfies the hypotheses under which
-`TBS::from_input` is the RFC 4035 §5.3.2 signed data (`C05.tbs_eq_spec_partial`), a Secure verdict
-means the signature oracle accepted the signature over the *canonical* signed data of exactly the
-presented records (owner, class IN, type, RDATA set) and RRSIG fields — a property of the RRset as a
-set, independent of record order and of the letter case of the owner. -/
+/-- **Exactly that RRset (`secure_signs_canonical`, full strength).**  Combined with
+`C05.tbs_eq_spec`: a Secure verdict means the signature oracle accepted the signature over the RFC
+4035 §5.3.2 *canonical* signed data of exactly the presented records — owner (up to letter case),
+class IN, type, the set of canonical RDATA — and these RRSIG fields: a property of the RRset as a
+set, independent of record order, duplicates, received TTLs and letter case. -/
 theorem secure_signs_canonical (sigValid : SigOracle) (k : Dnskey) (kp : Proof) (sig : Rrsig)
     (keyName : Name) (keyType : Nat) (records : List Record) (now : Nat) (ttl : Option Nat)
     (hnow : now < M) (hinc : sig.input.inception < M) (hexp : sig.input.expiration < M)
     (hb : C04.Bounded keyName)
-    (hnd : hasDup (collect keyName 1 sig.input records) = false)
-    (httl : sameTtl (collect keyName 1 sig.input records) = true)
-    (hcase : rdataCaseCanonical (collect keyName 1 sig.input records) = true)
     (h : verifyRrsetWithDnskey sigValid k kp sig keyName keyType records now = .ok (.secure, ttl)) :
     ∃ tbs, Spec.signedData sig.input keyName 1 ((collect keyName 1 sig.input records).map (·.data))
         = some tbs ∧ sigValid k tbs sig.sig = true := by
   obtain ⟨tbs, htbs, hs⟩ :=
     (secure_implies_checks sigValid k kp sig keyName keyType records now ttl hnow hinc hexp h).2.2.2.2.2.2.2.2.2.2.2.2
-  have hspec := C05.tbs_eq_spec_partial keyName 1 sig.input records hb hnd httl hcase
+  have hspec := C05.tbs_eq_spec keyName 1 sig.input records hb
   rw [htbs] at hspec
   unfold C05.expected at hspec
   split at hspec
@@ -187,6 +188,44 @@ theorem secure_signs_canonical (sigValid : SigOracle) (k : Dnskey) (kp : Proof) 
     · simp only [Outcome.ok.injEq] at hspec
       exact ⟨b, by rw [hb'], by rw [← hspec]; exact hs⟩
   · cases hspec
+
+/-- **Mutation rejects (`mutation_rejects`).**  Let `tbs₀` be the canonical signed data of an original
+RRset `(owner₀, IN, i₀.typeCovered, rds₀)` under RRSIG fields `i₀`, and assume of the signature
+oracle what unforgeability gives: under the presented key, the presented signature is accepted for
+`tbs₀` only.  If `verify_rrset_with_dnskey` says Secure for a presented RRSIG / RRset, then the
+presented RRSIG fields equal the original ones (type covered, algorithm, Labels, original TTL,
+expiration, inception, key tag, signer up to letter case), the presented records have the same *set*
+of canonical RDATA as the original RRset, and the same (lower-cased, wildcard-reduced) owner.
+Contrapositive: altering any signed field or bit of the records or of the RRSIG never yields Secure. -/
+theorem mutation_rejects (sigValid : SigOracle) (k : Dnskey) (kp : Proof) (sig : Rrsig)
+    (keyName : Name) (keyType : Nat) (records : List Record) (now : Nat) (ttl : Option Nat)
+    (hnow : now < M) (hinc : sig.input.inception < M) (hexp : sig.input.expiration < M)
+    (hb : C04.Bounded keyName)
+    (i0 : SigInput) (owner0 : Name) (rds0 : List RData) (tbs0 : Bytes)
+    (h0 : Spec.signedData i0 owner0 1 rds0 = some tbs0)
+    (horacle : ∀ tbs, sigValid k tbs sig.sig = true → tbs = tbs0)
+    (hi : C05.FieldsInRange sig.input) (hi0 : C05.FieldsInRange i0)
+    (hb0 : C04.Bounded owner0) (hs : C04.Bounded sig.input.signer) (hs0 : C04.Bounded i0.signer)
+    (hlen : ∀ c, Spec.canonicalRdatas ((collect keyName 1 sig.input records).map (·.data)) = some c →
+      ∀ rd ∈ c, rd.length < 65536)
+    (hlen0 : ∀ c, Spec.canonicalRdatas rds0 = some c → ∀ rd ∈ c, rd.length < 65536)
+    (h : verifyRrsetWithDnskey sigValid k kp sig keyName keyType records now = .ok (.secure, ttl)) :
+    (sig.input.typeCovered = i0.typeCovered ∧ sig.input.algorithm = i0.algorithm ∧
+     sig.input.numLabels = i0.numLabels ∧ sig.input.originalTtl = i0.originalTtl ∧
+     sig.input.expiration = i0.expiration ∧ sig.input.inception = i0.inception ∧
+     sig.input.keyTag = i0.keyTag ∧
+     sig.input.signer.labels.map Name.lowerLabel = i0.signer.labels.map Name.lowerLabel) ∧
+    ∃ c c0, Spec.canonicalRdatas ((collect keyName 1 sig.input records).map (·.data)) = some c ∧
+      Spec.canonicalRdatas rds0 = some c0 ∧ Spec.sortDistinct c = Spec.sortDistinct c0 ∧
+      (Spec.sortDistinct c ≠ [] →
+        Spec.signedOwner keyName sig.input.numLabels = Spec.signedOwner owner0 i0.numLabels) := by
+  obtain ⟨tbs, htbs, hacc⟩ := secure_signs_canonical sigValid k kp sig keyName keyType records now ttl
+    hnow hinc hexp hb h
+  have htbs0 := horacle tbs hacc
+  subst htbs0
+  obtain ⟨hf, c, c0, hc, hc0, hsd, hown⟩ := C05.signedData_injective sig.input i0 keyName owner0 1 1 _ rds0 tbs
+    hi hi0 (by decide) (by decide) hb hb0 hs hs0 hlen hlen0 htbs h0
+  exact ⟨hf, c, c0, hc, hc0, hsd, fun hne => (hown hne).1⟩
 
 /-! ### `verify_rrsig_with_keys` -/
 
@@ -265,10 +304,10 @@ theorem fresh_secure {sigValid : SigOracle} {r : Request}
     exact keys_secure_implies hv
   · cases h
 
-/-! ### the validation cache: provenance of every verdict (holds of the code as it is)
+/-! ### the validation cache: provenance of every verdict 
 
 The development is generic in what `get` does with a live entry (`serve`), so that it covers both
-the code as it is (`serveAsIs`) and the repaired cache of `Proofs/C06Fixed.lean` (`serveFixed`). -/
+the code as it is (`SigCheck.serve`) and the pre-repair cache (`servePreFix`, `Proofs/C06PreFix.lean`). -/
 
 /-- TTL of the first record (`cx.rrset.records.first()`) -/
 def firstTtl (r : Request) : Option Nat := r.records.head?.map (·.ttl)
@@ -379,8 +418,8 @@ theorem cache_provenanceG (sigValid : SigOracle) (cfg : CacheConfig)
 
 /-- **`cache_provenance`: the code as it is.** -/
 theorem cache_provenance (sigValid : SigOracle) (cfg : CacheConfig) (hist : List Request) :
-    SoundFrom sigValid cfg serveAsIs [] hist (runHistory sigValid cfg [] hist) :=
-  cache_provenanceG sigValid cfg serveAsIs hist
+    SoundFrom sigValid cfg serve [] hist (runHistory sigValid cfg [] hist) :=
+  cache_provenanceG sigValid cfg serve hist
 
 /-! ### the history theorem about Secure verdicts -/
 
@@ -394,21 +433,9 @@ def Bounds (r : Request) : Prop :=
   r.now < M ∧ r.rrsig.input.inception < M ∧ r.rrsig.input.expiration < M ∧
   SerialLe r.rrsig.input.inception r.rrsig.input.expiration
 
-/-- **The hypothesis the current code does not guarantee**: the lifetime `ValidationCache::insert`
-gives the entry of a Secure verdict does not exceed the remaining signature lifetime. -/
-def LifetimeCapped (sigValid : SigOracle) (cfg : CacheConfig) (r : Request) : Prop :=
-  ∀ t, firstTtl r = some t → (freshVerdict sigValid r).proof = .secure →
-    cacheLifetime cfg (freshVerdict sigValid r) t ≤ r.rrsig.input.expiration - r.now
-
 /-- `r'` was answered before `r`; if they share the cache key then they present the same signed
 content (the key is faithful) -/
 def KeyFaithful (r' r : Request) : Prop := r'.ck = r.ck → SameContent r' r
-
-/-- `KeyFaithful`, and the validator's wall clock and the monotonic clock of the cache advanced by
-the same amount between the two requests -/
-def PairOK (r' r : Request) : Prop :=
-  r'.ck = r.ck → SameContent r' r ∧ r'.now ≤ r.now ∧ r'.inst ≤ r.inst ∧
-    r.now - r'.now = r.inst - r'.inst
 
 /-- the content of `r` passed `verify_rrset_with_dnskey` at validator time `t` under a key whose own
 proof is Secure -/
@@ -421,38 +448,6 @@ checks at some validator time `t₀`, and the validator's clock is (still) insid
 def SecureOK (sigValid : SigOracle) (r : Request) : Prop :=
   InWindow r.now r.rrsig.input.inception r.rrsig.input.expiration ∧
   ∃ t0, t0 < M ∧ ValidatedAt sigValid r t0
-
-theorem window_extends {now' now inc exp life : Nat} (hnow : now < M) (hinc : inc < M) (hexp : exp < M)
-    (hwf : SerialLe inc exp) (hw : InWindow now' inc exp) (hle : now' ≤ now)
-    (hd : now - now' < life) (hcap : life ≤ exp - now') : InWindow now inc exp := by
-  unfold InWindow SerialLe M HALF at *
-  omega
-
-theorem step_secure_partial (sigValid : SigOracle) (cfg : CacheConfig)
-    (past : List Request) (r : Request) (v : Verdict) (fresh : Bool)
-    (hs : StepSound sigValid cfg serveAsIs past r v fresh) (hsec : v.proof = .secure) (hb : Bounds r)
-    (hpair : ∀ r' ∈ past, PairOK r' r ∧ LifetimeCapped sigValid cfg r') :
-    SecureOK sigValid r := by
-  obtain ⟨hnow, hinc, hexp, hwf⟩ := hb
-  rcases hs with ⟨_, hv⟩ | ⟨_, r', hr', hck, t, ht, hlive, hv⟩
-  · subst hv
-    obtain ⟨k, _, hk⟩ := fresh_secure hsec
-    have hc := secure_implies_checks sigValid k .secure r.rrsig r.keyName r.keyType r.records r.now _
-      hnow hinc hexp hk
-    exact ⟨hc.2.2.2.2.2.2.2.2.2.2.2.1, r.now, hnow, k, _, hk⟩
-  · obtain ⟨hp, hcapd⟩ := hpair r' hr'
-    obtain ⟨⟨hsig, hkn, hkt, hrec⟩, hle, hile, hsync⟩ := hp hck
-    simp only [serveAsIs, entryOf, Option.some.injEq] at hv
-    subst hv
-    obtain ⟨k, _, hk⟩ := fresh_secure hsec
-    rw [hsig, hkn, hkt, hrec] at hk
-    have hnow' : r'.now < M := by omega
-    have hc := secure_implies_checks sigValid k .secure r.rrsig r.keyName r.keyType r.records r'.now _
-      hnow' hinc hexp hk
-    have hcap := hcapd t ht hsec
-    rw [hsig] at hcap
-    refine ⟨?_, r'.now, hnow', k, _, hk⟩
-    exact window_extends hnow hinc hexp hwf hc.2.2.2.2.2.2.2.2.2.2.2.1 hle (by omega) hcap
 
 /-- every Secure verdict of the history satisfies `Q request verdict` -/
 def AllSecure (Q : Request → Verdict → Prop) : List Request → List (Verdict × Bool) → Prop
@@ -495,40 +490,108 @@ theorem allSecure_of_sound (sigValid : SigOracle) (cfg : CacheConfig)
           subst h
           exact ⟨(hb r' (by simp)).2, fun x hx => hpw.1 x hx⟩
       · exact hpw.2
+theorem fresh_secure_isOk {sigValid : SigOracle} {r : Request}
+    (h : (freshVerdict sigValid r).proof = .secure) : (freshVerdict sigValid r).isOk = true := by
+  unfold freshVerdict at h ⊢
+  split
+  · rfl
+  · rename_i hn
+    rw [hn] at h
+    cases h
 
-/-
-FULL STATEMENT (what the property says: "never yields Secure — also not via a previously cached
-verdict", for all validate / advance-clock / re-validate histories; the current code does **not**
-satisfy it, see `counterexample_cache_outlives_signature` and `counterexample_cache_key_case`, both
-confirmed on the real `DnssecDnsHandle::send`):
+/-- the authenticated TTL of a fresh Secure verdict is at most `expiration − now` -/
+theorem fresh_secure_ttl {sigValid : SigOracle} {r : Request} (hnow : r.now < M)
+    (hexp : r.rrsig.input.expiration < M)
+    (h : (freshVerdict sigValid r).proof = .secure) :
+    ∃ t, (freshVerdict sigValid r).adjustedTtl = some t ∧ t ≤ r.rrsig.input.expiration - r.now := by
+  obtain ⟨k, _, hk⟩ := fresh_secure h
+  obtain ⟨t, _, _, ht, _, _, _, _, hsub⟩ :=
+    ttl_le_remaining sigValid k .secure r.rrsig r.keyName r.keyType r.records r.now _ hnow hexp hk
+  exact ⟨t, ht, hsub⟩
 
-  theorem cache_sound (sigValid cfg) (hist : List Request)
-      (hb : ∀ r ∈ hist, Bounds r) (hkey : hist.Pairwise KeyFaithful) :
-      AllSecure (fun r _ => SecureOK sigValid r) hist (runHistory sigValid cfg [] hist)
+/-- TTL clause: a Secure verdict never carries a TTL above the remaining signature lifetime -/
+def TtlOK (r : Request) (v : Verdict) : Prop :=
+  ∀ t, v.adjustedTtl = some t → t ≤ r.rrsig.input.expiration - r.now
 
-i.e. without `LifetimeCapped` and without any assumption on how the clocks move.
-(`Proofs/C06Fixed.lean` proves exactly this, plus the TTL clause, for the repaired cache.)
--/
+/-- the clock arithmetic of the repaired `get`: validated inside the window at `t0`, served at `now`
+with `now.wrapping_sub(t0) ≤ expiration.saturating_sub(t0)` -/
+theorem span_window {t0 now inc exp : Nat} (ht0 : t0 < M) (hnow : now < M) (hinc : inc < M)
+    (hexp : exp < M) (hwf : SerialLe inc exp) (hw : InWindow t0 inc exp)
+    (hel : ¬ (now + M32 - t0) % M32 > exp - t0) :
+    InWindow now inc exp ∧ (exp - t0) - (now + M32 - t0) % M32 ≤ exp - now := by
+  unfold InWindow SerialLe M M32 HALF at *
+  omega
 
-/-- **History theorem, partial (`cache_sound_partial`), the code as it is.**  For every history of
-validation requests answered from an initially empty cache — any interleaving of validate /
-advance-clock / re-validate, any cache configuration — in which (i) requests with equal cache keys
-present the same signed content and the two clocks advance together (`PairOK`), and (ii) every Secure
-entry's lifetime is at most the remaining lifetime of its signature (`LifetimeCapped`): every Secure
-verdict handed out, fresh or cached, is for content that passed `verify_rrset_with_dnskey` (all of
-`secure_implies_checks`) at some validator time, and the validator's clock `now` is still inside
-`[inception, expiration]`. -/
-theorem cache_sound_partial (sigValid : SigOracle) (cfg : CacheConfig) (hist : List Request)
-    (hb : ∀ r ∈ hist, Bounds r)
-    (hcap : ∀ r ∈ hist, LifetimeCapped sigValid cfg r)
-    (hpw : hist.Pairwise PairOK) :
-    AllSecure (fun r _ => SecureOK sigValid r) hist (runHistory sigValid cfg [] hist) :=
-  allSecure_of_sound sigValid cfg serveAsIs _ PairOK (LifetimeCapped sigValid cfg)
-    (fun past r v fresh hs hsec hb hp => step_secure_partial sigValid cfg past r v fresh hs hsec hb hp)
-    [] hist _ (cache_provenance sigValid cfg hist)
-    (fun r hr => ⟨hb r hr, hcap r hr⟩) (by simp) hpw
+theorem step_secure (sigValid : SigOracle) (cfg : CacheConfig)
+    (past : List Request) (r : Request) (v : Verdict) (fresh : Bool)
+    (hs : StepSound sigValid cfg serve past r v fresh) (hsec : v.proof = .secure) (hb : Bounds r)
+    (hpair : ∀ r' ∈ past, KeyFaithful r' r ∧ Bounds r') :
+    SecureOK sigValid r ∧ TtlOK r v := by
+  obtain ⟨hnow, hinc, hexp, hwf⟩ := hb
+  rcases hs with ⟨_, hv⟩ | ⟨_, r', hr', hck, t, ht, hlive, hv⟩
+  · subst hv
+    obtain ⟨k, _, hk⟩ := fresh_secure hsec
+    have hc := secure_implies_checks sigValid k .secure r.rrsig r.keyName r.keyType r.records r.now _
+      hnow hinc hexp hk
+    refine ⟨⟨hc.2.2.2.2.2.2.2.2.2.2.2.1, r.now, hnow, k, _, hk⟩, ?_⟩
+    obtain ⟨t', ht', hle⟩ := fresh_secure_ttl hnow hexp hsec
+    intro t0 h0
+    rw [ht'] at h0
+    simp only [Option.some.injEq] at h0
+    omega
+  · obtain ⟨hkf, hb'⟩ := hpair r' hr'
+    obtain ⟨hsig, hkn, hkt, hrec⟩ := hkf hck
+    obtain ⟨hnow', _, _, _⟩ := hb'
+    -- the verdict served has the proof of the stored one
+    have hsec' : (freshVerdict sigValid r').proof = .secure := by
+      simp only [serve, entryOf] at hv
+      split at hv
+      · split at hv
+        · cases hv
+        · split at hv <;> (simp only [Option.some.injEq] at hv; rw [← hv] at hsec; exact hsec)
+      · simp only [Option.some.injEq] at hv; rw [← hv] at hsec; exact hsec
+    have hok := fresh_secure_isOk hsec'
+    have hspan : spanOf (freshVerdict sigValid r') r'
+        = some (r'.now, r'.rrsig.input.expiration - r'.now) := by
+      simp [spanOf, hok, hsec']
+    obtain ⟨k, _, hk⟩ := fresh_secure hsec'
+    rw [hsig, hkn, hkt, hrec] at hk
+    have hc := secure_implies_checks sigValid k .secure r.rrsig r.keyName r.keyType r.records r'.now _
+      hnow' hinc hexp hk
+    obtain ⟨t', ht', _⟩ := fresh_secure_ttl hnow' (by rw [hsig]; exact hexp) hsec'
+    simp only [serve, entryOf, hspan, ht'] at hv
+    split at hv
+    · cases hv
+    · rename_i hel
+      rw [hsig] at hel
+      obtain ⟨hwin, hleft⟩ :=
+        span_window hnow' hnow hinc hexp hwf hc.2.2.2.2.2.2.2.2.2.2.2.1 hel
+      refine ⟨⟨hwin, r'.now, hnow', k, _, hk⟩, ?_⟩
+      simp only [Option.some.injEq] at hv
+      intro t0 h0
+      rw [← hv] at h0
+      simp only [Option.some.injEq] at h0
+      rw [hsig] at h0
+      omega
 
-/-! ### concrete values: non-vacuity and the counter-examples (replays of the findings) -/
+/-- **History theorem (`cache_sound`, full strength).**  For every history
+of validation requests answered from an initially empty cache — any interleaving of validate /
+advance-clock (either clock, by any amount, forwards or backwards, across the 2³² wrap) /
+re-validate, any configured positive/negative range — in which requests with equal cache keys
+present the same signed content (`KeyFaithful`): every Secure verdict handed out, fresh or cached,
+is for content that passed `verify_rrset_with_dnskey` (all of `secure_implies_checks`), the
+validator's clock is inside `[inception, expiration]` at the moment it is handed out, and its TTL
+does not exceed the remaining signature lifetime. -/
+theorem cache_sound (sigValid : SigOracle) (cfg : CacheConfig) (hist : List Request)
+    (hb : ∀ r ∈ hist, Bounds r) (hkey : hist.Pairwise KeyFaithful) :
+    AllSecure (fun r v => SecureOK sigValid r ∧ TtlOK r v) hist
+      (runHistory sigValid cfg [] hist) :=
+  allSecure_of_sound sigValid cfg serve _ KeyFaithful Bounds
+    (fun past r v fresh hs hsec hb hp => step_secure sigValid cfg past r v fresh hs hsec hb hp)
+    [] hist _ (cache_provenanceG sigValid cfg serve hist)
+    (fun r hr => ⟨hb r hr, hb r hr⟩) (by simp) hkey
+
+/-! ### concrete values: non-vacuity -/
 
 deriving instance DecidableEq for Except
 
@@ -565,47 +628,32 @@ example :
       = .error .insecure := by
   decide
 
-/-- **Finding `validation-cache-outlives-signature`.**  RRset TTL 3600, RRSIG expires at 1010.
-Validate at time 1000: Secure, TTL 10, and the entry is kept for 3600 s.  Twenty seconds later (both
-clocks advanced by 20) the answer is still Secure from the cache, with the stale TTL 10 — although the
-clock is outside the window and a fresh validation says Bogus.  Every hypothesis of
-`cache_sound_partial` holds except `LifetimeCapped` (lifetime 3600 > 1010 − 1000). -/
-theorem counterexample_cache_outlives_signature :
-    (runHistory acceptAll {} [] [reqA 3600 1000 0, reqA 3600 1020 20]).map
-        (fun o => (o.1.proof, o.1.adjustedTtl, o.2))
-      = [(.secure, some 10, true), (.secure, some 10, false)] ∧
-    (freshVerdict acceptAll (reqA 3600 1020 20)).proof = .bogus ∧
-    ¬ (1010 + M - 1020) % M < HALF ∧
-    cacheLifetime {} (freshVerdict acceptAll (reqA 3600 1000 0)) 3600 = 3600 := by
-  decide
-
-/-- with the lifetime capped (TTL 5 ≤ 10 s of remaining validity) the same history is harmless: served
-from the cache while live and inside the window, re-validated afterwards -/
-example :
-    (runHistory acceptAll {} [] [reqA 5 1000 0, reqA 5 1003 3, reqA 5 1020 20]).map
-        (fun o => (o.1.proof, o.1.adjustedTtl, o.2))
-      = [(.secure, some 5, true), (.secure, some 5, false), (.bogus, none, true)] := by
-  decide
-
-/-- an oracle that accepts exactly the signed data of `recs` -/
+/-- an oracle that accepts exactly the signed data of `recs` under `sig0` (what unforgeability gives
+for a signature made over that RRset) -/
 def acceptOnly (recs : List Record) : SigOracle :=
   fun _ tbs _ => tbsImpl nameA 1 sig0.input recs == .ok tbs
 
-/-- an RRset of a type whose canonical form keeps the case of embedded names (opaque: key and canonical
-bytes as the real code computes them), next name `B.` / `b.` -/
-def recN (c : Nat) : Record := ⟨nameA, 1, 1, 3600, .opaque [1, c, 0] (some [1, c, 0])⟩
-
-/-- **Finding `validation-cache-key-folds-rdata-case`.**  Two requests with the same cache key (the
-hasher folds the case of names inside RDATA) but different signed RDATA (`B.` vs `b.`): the second
-is answered Secure from the cache although the signature does not cover it. -/
-theorem counterexample_cache_key_case :
-    (runHistory (acceptOnly [recN 66]) {} []
-        [⟨[7], [(key0, .secure)], sig0, nameA, 1, [recN 66], 1000, 0⟩,
-         ⟨[7], [(key0, .secure)], sig0, nameA, 1, [recN 98], 1000, 0⟩]).map
-        (fun o => (o.1.proof, o.2))
-      = [(.secure, true), (.secure, false)] ∧
-    (freshVerdict (acceptOnly [recN 66])
-      ⟨[7], [(key0, .secure)], sig0, nameA, 1, [recN 98], 1000, 0⟩).proof = .bogus := by
+/-- `mutation_rejects` / `secure_signs_canonical` on concrete values: with a signature over the RRset
+`{10.0.0.1, 10.0.0.2}`, presenting the records in another order, with a duplicate, with other
+received TTLs or another owner letter case is still Secure (same canonical set); a flipped address
+bit, a missing or an extra record, or an altered RRSIG field (original TTL, expiration) is not -/
+example :
+    let signed := [recA 3600 [10, 0, 0, 1], recA 3600 [10, 0, 0, 2]]
+    let o := acceptOnly signed
+    verifyRrsetWithDnskey o key0 .secure sig0 nameA 1 signed 1000 = .ok (.secure, some 10) ∧
+    verifyRrsetWithDnskey o key0 .secure sig0 nameA 1
+      [recA 7 [10, 0, 0, 2], recA 3600 [10, 0, 0, 1], recA 60 [10, 0, 0, 2]] 1000 = .ok (.secure, some 7) ∧
+    verifyRrsetWithDnskey o key0 .secure sig0 nameA 1
+      [⟨⟨[[65]], true⟩, 1, 1, 3600, .a [10, 0, 0, 1]⟩, recA 3600 [10, 0, 0, 2]] 1000 = .ok (.secure, some 10) ∧
+    verifyRrsetWithDnskey o key0 .secure sig0 nameA 1
+      [recA 3600 [10, 0, 0, 1], recA 3600 [10, 0, 0, 3]] 1000 = .error .bogus ∧
+    verifyRrsetWithDnskey o key0 .secure sig0 nameA 1 [recA 3600 [10, 0, 0, 1]] 1000 = .error .bogus ∧
+    verifyRrsetWithDnskey o key0 .secure sig0 nameA 1
+      (recA 3600 [10, 0, 0, 9] :: signed) 1000 = .error .bogus ∧
+    verifyRrsetWithDnskey o key0 .secure { sig0 with input := { sig0.input with originalTtl := 3601 } }
+      nameA 1 signed 1000 = .error .bogus ∧
+    verifyRrsetWithDnskey o key0 .secure { sig0 with input := { sig0.input with expiration := 1011 } }
+      nameA 1 signed 1000 = .error .bogus := by
   decide
 
 /-- key-tag collision cap (`MAX_KEY_TAG_COLLISIONS = 2`): the third key with the same tag is never
@@ -622,5 +670,31 @@ example :
     verifyRrsigWithKeys acceptAll [(key0, .insecure)] sig0 nameA 1 [recA 60 [1, 1, 1, 1]] 1000
       = some (.insecure, none) := by
   decide
+
+/-- the history on which the pre-repair cache failed: the cached answer
+carries the reduced TTL, and once the validator's clock is past the expiration — although the entry
+is still live on the monotonic clock — a fresh validation is made, which says Bogus -/
+example :
+    (runHistory acceptAll {} [] [reqA 3600 1000 0, reqA 3600 1005 5, reqA 3600 1020 20]).map
+        (fun o => (o.1.proof, o.1.adjustedTtl, o.2))
+      = [(.secure, some 10, true), (.secure, some 5, false), (.bogus, none, true)] ∧
+    (runHistory acceptAll {} [] [reqA 3600 1000 0, reqA 3600 1020 0, reqA 3600 999 0]).map
+        (fun o => (o.1.proof, o.2))
+      = [(.secure, true), (.bogus, true), (.bogus, false)] := by
+  decide
+
+/-- the hypotheses of `cache_sound` are satisfiable by a non-trivial history: only `Bounds` and
+`KeyFaithful` are needed, whatever the clocks do (here the wall clock jumps past the expiration while
+the monotonic clock stands still) -/
+example :
+    AllSecure (fun r v => SecureOK acceptAll r ∧ TtlOK r v) [reqA 3600 1000 0, reqA 3600 1005 0, reqA 3600 1020 0]
+      (runHistory acceptAll {} [] [reqA 3600 1000 0, reqA 3600 1005 0, reqA 3600 1020 0]) := by
+  apply cache_sound
+  · intro r hr
+    simp only [List.mem_cons, List.mem_nil_iff, or_false] at hr
+    rcases hr with rfl | rfl | rfl <;> (unfold Bounds SerialLe M HALF; decide)
+  · simp only [List.pairwise_cons, List.mem_cons, or_false, forall_eq_or_imp, forall_eq,
+      List.not_mem_nil, false_imp_iff, implies_true, List.Pairwise.nil, and_true]
+    refine ⟨⟨?_, ?_⟩, ?_⟩ <;> (intro _; exact ⟨rfl, rfl, rfl, rfl⟩)
 
 end HickoryVerif.C06
